@@ -288,8 +288,13 @@ class Interp:
                         if t.id == name:
                             found = True
             if found:
-                self.class_consts[key] = ns.vars[name]
-                return ns.vars[name]
+                val = ns.vars[name]
+                self.class_consts[key] = val
+                from . import builtins_ as _B
+                if isinstance(val, (dict, list, _B.SetV)):
+                    # class-level mutable state is shared by all instances AND survives from call to call
+                    _B.declare_owner(self, val, ClassState(f'{c.name}.{name}'), name)
+                return val
         raise KeyError(name)
 
     def new_obj(self, clsname, fresh_=True, tag=None):
@@ -1304,6 +1309,18 @@ def realized_config(repo, data):
         note = f'config: Config.__init__ could not be executed on the yaml data ({type(e).__name__}: {e}); attributes = yaml keys'
     _CFG_CACHE[key] = (out, note)
     return out, note
+
+
+class ClassState:
+    """pseudo-owner of a class-level mutable attribute: a store into it makes later calls depend on earlier ones"""
+    fresh = False
+
+    def __init__(self, qual):
+        self.qual = qual
+        self.tag = f'class-level state {qual}'
+
+    def __repr__(self):
+        return f"<class-level state {self.qual}>"
 
 
 class CacheOwner:
